@@ -535,6 +535,9 @@ func TestProp(t *testing.T) {
 			// the other kinds of destination writer: failing programs, cancellation before and
 			// during the call, a rejecting processor
 			for di, d := range dests[1:] {
+				if !run.Thorough() && (di+len(p.Name)+len(e))%2 != 0 {
+					continue // quick: two of the four other destination kinds per (program, entry)
+				}
 				each(Case{Prog: p.Name, Entry: e, Mode: "ref", Dest: d})
 				each(Case{Prog: p.Name, Entry: e, Mode: []string{"cancel", "deadline"}[di%2], Dest: d})
 				if !p.Fails {
@@ -579,7 +582,7 @@ func TestProp(t *testing.T) {
 					continue
 				}
 				each(Case{Prog: p.Name, Entry: e, Mode: "failat", K: k})
-				if k%3 == 0 || k >= ref.Len()-2 {
+				if (k%5 == 0 && run.Thorough()) || k%11 == 0 || k >= ref.Len()-2 {
 					each(Case{Prog: p.Name, Entry: e, Mode: "failat", K: k, Dest: "sw"})
 				}
 			}
